@@ -4,7 +4,7 @@
 From Coq Require Import List NArith Bool.
 From V.Lib Require Import Base Hex.
 From V.Gen Require Import C03Tables.
-From V.C03 Require Import Codec Model Spec.
+From V.C03 Require Import Codec Sha256 Model Spec.
 Import ListNotations.
 Local Open Scope N_scope.
 
@@ -26,7 +26,7 @@ Definition table_valid (bad : list (N * bytes)) (k : N) (x : bytes) : bool :=
     re-serialisation is the same transaction (theorem [tx_reparse]) and a generated transaction
     parses to itself (theorem [tx_roundtrip]), so both flags are predicted [true]; the model is a
     function of the bytes only, so every reader kind must give the same result. *)
-Definition run_case (c : case) : bool :=
+Definition run_caseH (H : bytes -> bytes) (c : case) : bool :=
   match c with
   | Tx _ ctx b bad o alts =>
       let cd := c_tx (table_valid bad) in
@@ -34,7 +34,7 @@ Definition run_case (c : case) : bool :=
       | Some (t, r), Ok (TxOk n rw txid br same gen_same) =>
           (n + nlen r =? nlen b) && bytes_eqb (enc cd t) (prefix_or b n rw)
           && (effective_branch ctx t =? br)
-          && (negb (is_legacy (fst t)) || bytes_eqb (legacy_txid (table_valid bad) t) txid)
+          && (negb (is_legacy (fst t)) || bytes_eqb (legacy_txid H (table_valid bad) t) txid)
           && same && gen_same
           && forallb (alt_agrees n) alts
       | None, Err _ => forallb alt_rejects alts
@@ -44,7 +44,7 @@ Definition run_case (c : case) : bool :=
       match dec c_header b, o with
       | Some (h, r), Ok (HdrOk n rw hash same) =>
           (n + nlen r =? nlen b) && bytes_eqb (enc c_header h) (prefix_or b n rw)
-          && bytes_eqb (header_hash h) hash && same
+          && bytes_eqb (header_hash H h) hash && same
           && forallb (alt_agrees n) alts
       | None, Err _ => forallb alt_rejects alts
       | _, _ => false
@@ -83,10 +83,10 @@ Definition cs_out_eqb (a : option (N * N)) (o : outcome (N * N) unit) : bool :=
   | _, _ => false
   end.
 
-Definition prop_case (c : case) : bool :=
+Definition prop_caseH (H : bytes -> bytes) (c : case) : bool :=
   match c with
-  | Tx src ctx b _ o alts => tx_prop src ctx b o alts
-  | Hdr src b o alts => hdr_prop src b o alts
+  | Tx src ctx b _ o alts => tx_prop H src ctx b o alts
+  | Hdr src b o alts => hdr_prop H src b o alts
   | CsRead which b o => cs_out_eqb (cs_spec (if which =? 0 then Some MX else None) b) o
   | CsWrite which n o =>
       match o with
@@ -107,6 +107,10 @@ Definition prop_case (c : case) : bool :=
       | _, _ => false
       end
   end.
+
+(** what the generated case files evaluate: the identifier hash is SHA-256d *)
+Definition run_case : case -> bool := run_caseH sha256d.
+Definition prop_case : case -> bool := prop_caseH sha256d.
 
 Definition known_class (c : case) : N := 0.
 
